@@ -94,7 +94,7 @@ Definition doc_ops : list ((list bool -> bool) * (bool * option bool * Z)) :=
     (doc_fill4,        (true,  Some true,  (-2)%Z));
     (doc_hbreak,       (false, Some false, (-1)%Z));
     (doc_vbreak,       (false, Some false, (-1)%Z));
-    (doc_life,         (false, None,       (-1)%Z));
+    (doc_life,         (false, None,       (-2)%Z));
     (doc_majority,     (false, Some false, (-2)%Z));
     (doc_remove,       (false, Some false, (-1)%Z));
     (doc_thicken,      (false, Some false, (-2)%Z)) ].
